@@ -77,6 +77,29 @@ fn run(name: &str) -> Result<String, String> {
                 if back != ev { return Err(format!("completion {end:?}: {js} parsed back as {:?}", back.tags)); } }
             Ok(format!("{n} tag values"))
         }
+        // C16 (BOUNDED): metadata maps over 3 keys x 6 value lists (absent, empty, empty string, one, two, awkward characters), with and without tags,
+        // and whole events combining several tags: Event -> JSON -> Event is the identity
+        "metadata_and_whole_events_json_roundtrip" => {
+            use std::collections::HashMap;
+            let keys = ["", "k", "file-event-info"];
+            let vals: [Option<Vec<&str>>; 6] = [None, Some(vec![]), Some(vec![""]), Some(vec!["a"]), Some(vec!["a", "b"]), Some(vec!["\u{fc} \"q\"\n\\", "a"])];
+            let tagsets: Vec<Vec<Tag>> = vec![vec![], vec![Tag::Source(Source::Filesystem)],
+                vec![Tag::Source(Source::Os), Tag::Path { path: "/x/y".into(), file_type: Some(FileType::File) }, Tag::Path { path: "/x/z".into(), file_type: None }, Tag::Process(42), Tag::ProcessCompletion(Some(ProcessEnd::Success)), Tag::Keyboard(Keyboard::Eof)]];
+            let mut n = 0;
+            for a in 0..6 { for b in 0..6 { for c in 0..6 { for tags in &tagsets {
+                let mut metadata: HashMap<String, Vec<String>> = HashMap::new();
+                for (k, i) in keys.iter().zip([a, b, c]) { if let Some(v) = &vals[i] { metadata.insert(k.to_string(), v.iter().map(|s| s.to_string()).collect()); } }
+                let ev = Event { tags: tags.clone(), metadata };
+                let (js, back) = roundtrip(&ev)?; n += 1;
+                if back != ev { return Err(format!("event {ev:?} serialised as {js} parsed back as {back:?}")); }
+            }}}}
+            // arrays of events keep their order and length
+            let evs: Vec<Event> = (0..5u32).map(|i| Event { tags: vec![Tag::Process(i)], metadata: Default::default() }).collect();
+            let js = serde_json::to_string(&evs).map_err(|e| e.to_string())?;
+            let back: Vec<Event> = serde_json::from_str(&js).map_err(|e| e.to_string())?;
+            if back != evs { return Err(format!("an array of 5 events serialised as {js} parsed back as {back:?}")); }
+            Ok(format!("{n} events"))
+        }
         _ => Err(format!("unknown scenario {name}")),
     }
 }
